@@ -74,6 +74,13 @@ def cases(thorough):
         for w in (1 / 4, 1.0):
             for d in (["z", "x"] if ndim == 3 else ["z"]):
                 yield dict(base, block="V", dx=w, resolution=3, direction=d, origin=origins[0], vector_layer=True)
+        # block W: the kernels under map() on 2 and 3 virtual threads (static work split), windows larger than the domain
+        # and meshes with holes, image heights the thread count does not divide
+        if ti % 2 == 0 or holes or thorough:
+            for T_ in (2, 3):
+                for (w, r) in ((2.0, 5), (1.5, 3), (1.0, 4), (2.0, {"x": 3, "y": 7})):
+                    yield dict(base, block="W", dx=w, resolution=r, direction="z", origin=origins[0], virtual_threads=T_)
+                yield dict(base, block="W", dx=2.0, resolution=5, direction="z", origin=origins[0], vector_layer=True, virtual_threads=T_)
         # on-face block: origin exactly on the lattice
         for w in (1 / 4, 1.0):
             yield dict(base, block="F", dx=w, resolution=4, direction="z", origin=[0.5] * ndim)
@@ -258,6 +265,9 @@ def e3_harnesses(thorough):
         "2d-4cells-2x2-on-faces": dict(tree=t2b, holes=[], dx=1.0, resolution=2, origin=[0.5, 0.5]),
         "2d-4cells-4x4-on-faces": dict(tree=t2b, holes=[], dx=1.0, resolution=4, origin=[0.5, 0.5]),
         "2d-4cells-centre-pixel-on-corner": dict(tree=t2b, holes=[], dx=0.5, resolution=1, origin=[0.5, 0.5], vector_layer=True),
+        # window larger than the domain: the outer ring of pixels has no cell and must stay blank for every work split
+        "2d-4cells-3x3-window-larger-than-domain": dict(tree=t2b, holes=[], dx=3.0, resolution=3, origin=[0.5 + OFF, 0.5 + OFF]),
+        "2d-4cells-5x5-window-larger-than-domain": dict(tree=t2b, holes=[], dx=2.5, resolution=5, origin=[0.5 + OFF, 0.5 + OFF]),
         "3d-8cells-2x2-off-face": dict(tree=t3, holes=[], dx=1.0, resolution=2, origin=[0.5 + OFF] * 3, direction="z"),
         "3d-8cells-2x2-plane-on-face": dict(tree=t3, holes=[], dx=1.0, resolution=2, origin=[0.5 + OFF, 0.5 + OFF, 0.5], direction="z"),
     }
@@ -322,8 +332,7 @@ def e3_work(payload):
                 acc.case(nontrivial=False, outcome="sequential")
                 acc.count("executions")
                 continue
-            owner = {i: k for k, blk in enumerate(part) for i in blk}
-            cross = [cf for cf in conf if len({owner[i] for i in cf[3]}) > 1]
+            cross = S.cross_conflicts(s0, part, len(part))
 
             def check(res, seq=seq, allowed=allowed):
                 r, q = np.asarray(res).ravel(), np.asarray(seq).ravel()
